@@ -322,3 +322,35 @@ class LssFastScanTwice(Contract):
         return {"config_state": w.get(w.pre["net"], "config_state")}
 
     ensures = {"second-scan-finds-second-identity": lambda s: LssFastScan.ok(s)}
+
+
+@contract
+class LssStaleReplies(Contract):
+    """unsolicited frames queued before a request (e.g. answers of several slaves to a service the master does not
+    wait for) are all discarded: the answer returned is the one that arrives after the request"""
+    target = "canopen.lss:LssMaster.__send_command"
+    id = "LssStaleReplies"
+    props = ("C18",)
+    cases = {"stale=%s" % k: k for k in ("any", 1, 2, 3, 4)}
+    exits = ("return", "raise:LssError")
+
+    def setup(self, w, case):
+        if case == "any":
+            stale = w.plist("stale", maxn=2, elem=lambda i: w.bytes("stale%d" % i, 8))
+        else:
+            stale = w.list([w.bytes("stale%d" % i, 8) for i in range(case)])
+        m = w.obj(LSS, network=None, _node_id=0, _data=None, responses=w.new_queue(stale), RESPONSE_TIMEOUT=0.01)
+        net = w.obj("env.lss:ScriptedNet", master=m, answered=w.bool("answered"), reply=w.bytes("reply", 8))
+        w.setfield(m, "network", net)
+        w.pre.update(m=m, answered_=w.get(net, "answered"), reply_=w.get(net, "reply"))
+        return Call(("method", m, "inquire_node_id"), [])
+
+    @staticmethod
+    def ok(s):
+        p = s.pre
+        r = p["reply_"]
+        good = And(p["answered_"], compare("==", S.byte(r, 0), 0x5E))
+        return And(frame_is(s, [0x5E, 0, 0, 0, 0, 0, 0, 0]), Iff(good, s.returned), Implies(Not(good), s.raised(ERR)),
+                   Implies(good, S.eq(s.ret, S.byte(r, 1)) if s.returned else True))
+
+    ensures = {"answer-is-the-one-after-the-request": lambda s: LssStaleReplies.ok(s)}
